@@ -22,6 +22,7 @@ func init() {
 type hrCase struct {
 	Idx      int    `json:"idx"`
 	Scenario string `json:"scenario"` // complete | foreign-epochs | new-not-accepting | client-session-lost | back-to-back
+	Rebuilt  bool   `json:"one_session_lost_and_rebuilt_before_the_restart"`
 	Sessions int    `json:"sessions"`
 	Memfd    bool   `json:"memfd"`
 	Traffic  int    `json:"traffic_goroutines"`
@@ -173,6 +174,44 @@ func runHotRestartCase(c *checkCtx, cs hrCase, can *canary) (res hrResult) {
 		}()
 	}
 	stopTraffic := func() { close(stop); twg.Wait() }
+	var tRebuilt int64 // logical time at which an injected pre-restart loss had been healed
+	if cs.Rebuilt {
+		// one session is lost and rebuilt by its watcher before the restart: the rebuilt session must take part in the
+		// hand-over like the ones the manager started with
+		waitUntil(10*time.Second, func() bool { return len(old.sessionList()) == cs.Sessions })
+		ol := old.sessionList()
+		if len(ol) == 0 {
+			stopTraffic()
+			res.inconcl = "no session on the old listener"
+			return
+		}
+		victim := ol[0]
+		var peer *Session
+		sm.RLock()
+		for _, p := range sm.pools {
+			if s := p.Session(); s != nil && s.sessionName() == victim.sessionName() {
+				peer = s
+			}
+		}
+		sm.RUnlock()
+		closeQuiesced(func() { victim.Close() }, []*Session{victim, peer})
+		rebuilt := waitUntil(10*time.Second, func() bool {
+			sm.RLock()
+			defer sm.RUnlock()
+			for _, p := range sm.pools {
+				if s := p.Session(); s == nil || s.IsClosed() {
+					return false
+				}
+			}
+			return len(old.sessionList()) == cs.Sessions
+		})
+		if !rebuilt {
+			stopTraffic()
+			res.inconcl = "the lost session was not rebuilt before the restart (C17's subject)"
+			return
+		}
+		tRebuilt = atomic.AddInt64(&clock, 1)
+	}
 	// a stream taken before the restart: the old session must stay usable until the old server lets go
 	held, err := sm.GetStream()
 	if err != nil {
@@ -422,6 +461,9 @@ func runHotRestartCase(c *checkCtx, cs hrCase, can *canary) (res hrResult) {
 		if tr.ok || cs.Scenario == "client-session-lost" || cs.Scenario == "new-not-accepting" {
 			continue
 		}
+		if cs.Rebuilt && tr.start <= tRebuilt {
+			continue // calls around the injected loss (before the restart) fail by design
+		}
 		if tr.end < tOldClose {
 			violate("a round trip that ran entirely before the old listener was closed failed (%s) [restart requested at tick %d, done at %d, trip %d..%d]",
 				tr.err, tRestart, tDone, tr.start, tr.end)
@@ -475,7 +517,7 @@ func checkHotRestart(c *checkCtx) {
 	sem := make(chan struct{}, 4)
 	for i := 0; i < n; i++ {
 		rng := caseRand(c.seed, 600000+i)
-		cs := hrCase{Idx: i, Scenario: scen[i%len(scen)], Sessions: 1 + rng.Intn(4), Memfd: rng.Intn(2) == 0, Traffic: 4 + rng.Intn(5), Seed: rng.Int63()}
+		cs := hrCase{Idx: i, Scenario: scen[i%len(scen)], Sessions: 1 + rng.Intn(4), Memfd: rng.Intn(2) == 0, Traffic: 4 + rng.Intn(5), Seed: rng.Int63(), Rebuilt: i%6 == 5}
 		wg.Add(1)
 		sem <- struct{}{}
 		go func(cs hrCase) {
